@@ -25,9 +25,12 @@ import (
 	"encoding/base64"
 	"encoding/binary"
 	"encoding/json"
+	"context"
 	"flag"
 	"fmt"
+	"net"
 	"os"
+	"path/filepath"
 	"sort"
 	"strconv"
 	"strings"
@@ -36,7 +39,10 @@ import (
 
 	"github.com/DrmagicE/gmqtt"
 	"github.com/DrmagicE/gmqtt/config"
+	_ "github.com/DrmagicE/gmqtt/persistence"
 	"github.com/DrmagicE/gmqtt/persistence/subscription"
+	"github.com/DrmagicE/gmqtt/server"
+	_ "github.com/DrmagicE/gmqtt/topicalias/fifo"
 
 	"verifharness/inproc"
 	mw "verifharness/mqttwire"
@@ -295,6 +301,58 @@ const (
 	tDial = 3 * time.Second
 )
 
+// fakeFrom builds the store of a journal prefix.  Tens of thousands of restarts churn through loopback ports (the fake
+// listens on TCP); when the range is momentarily used up (this machine is shared) the attempt is repeated.
+func fakeFrom(cmds []resp.Cmd) (*resp.Server, error) {
+	var err error
+	for i := 0; i < 100; i++ {
+		var f *resp.Server
+		if f, err = resp.NewServerFromJournal(cmds); err == nil {
+			return f, nil
+		}
+		if !strings.Contains(err.Error(), "address already in use") {
+			return nil, err
+		}
+		time.Sleep(200 * time.Millisecond)
+	}
+	return nil, err
+}
+
+// ubroker is a real broker serving MQTT on a unix socket (the restarts of the fault enumeration: no TCP ports for the
+// MQTT side; same server.New / Init / Run as inproc.Start, no hooks needed).
+type ubroker struct {
+	srv  server.Server
+	path string
+	run  chan error
+}
+
+var sockDir string
+
+func startUnix(cfg config.Config, name string) (*ubroker, error) {
+	path := filepath.Join(sockDir, name+".sock")
+	_ = os.Remove(path)
+	ln, err := net.Listen("unix", path)
+	if err != nil {
+		return nil, fmt.Errorf("listen unix: %v", err)
+	}
+	srv := server.New(server.WithConfig(cfg), server.WithTCPListener(ln))
+	if err := srv.Init(); err != nil {
+		ln.Close()
+		return nil, fmt.Errorf("broker init: %w", err)
+	}
+	b := &ubroker{srv: srv, path: path, run: make(chan error, 1)}
+	go func() { b.run <- srv.Run() }()
+	return b, nil
+}
+
+func (b *ubroker) stop(timeout time.Duration) error {
+	ctx, cancel := context.WithTimeout(context.Background(), timeout)
+	defer cancel()
+	err := b.srv.Stop(ctx)
+	_ = os.Remove(b.path)
+	return err
+}
+
 // cli is a scripted client: synchronous, packets that are not waited for are kept in the inbox.
 type cli struct {
 	id    string
@@ -338,11 +396,15 @@ func (a *cli) nextPid() uint16 {
 }
 
 func dialConnect(addr, id string, def ClientDef, clean bool) (*cli, *mw.Packet, error) {
-	c, err := mw.Dial(addr, byte(def.Ver), tDial)
+	network := "tcp"
+	if strings.HasPrefix(addr, "/") {
+		network = "unix"
+	}
+	conn, err := net.DialTimeout(network, addr, tDial)
 	if err != nil {
 		return nil, nil, err
 	}
-	a := &cli{id: id, def: def, c: c, pids: map[string]uint16{}}
+	a := &cli{id: id, def: def, c: mw.NewClient(conn, byte(def.Ver)), pids: map[string]uint16{}}
 	p := mw.Connect(byte(def.Ver), id, clean, 0)
 	if def.Ver == 5 && def.Exp >= 0 {
 		e := uint32(def.Exp)
@@ -412,7 +474,7 @@ func (r *recorder) startLife() error {
 	if len(r.out.Entries) == 0 {
 		fake, err = resp.NewServer()
 	} else {
-		fake, err = resp.NewServerFromJournal(r.cmds())
+		fake, err = fakeFrom(r.cmds())
 	}
 	if err != nil {
 		return err
@@ -736,6 +798,10 @@ type Result struct {
 	Trouble  string `json:"trouble,omitempty"` // machinery trouble: no verdict for this prefix
 	Sessions int    `json:"sessions"`          // persistent clients that were reconnected
 	Checked  int    `json:"checked"`           // required facts compared (sessions, subscriptions, messages, ids)
+	NSubs    int    `json:"nsubs"`             // (client, filter) pairs compared
+	NMust    int    `json:"nmust"`             // messages that had to be sent again
+	NDone    int    `json:"ndone"`             // messages that must not be sent again
+	NIds     int    `json:"nids"`              // QoS2 identifiers probed with a re-sent PUBLISH
 	WallMs   int    `json:"wall_ms"`
 }
 
@@ -774,24 +840,43 @@ func restart(rec *Recorded, pl *Plan) (res *Result) {
 			cmds = append(cmds, rec.Entries[i].cmd())
 		}
 	}
-	fake, err := resp.NewServerFromJournal(cmds)
+	fake, err := fakeFrom(cmds)
 	if err != nil {
 		res.Trouble = "fake: " + err.Error()
 		return
 	}
-	defer fake.Close()
-	b, err := inproc.Start(inproc.Options{Cfg: brokerConfig(fake.Addr())})
+	ub, err := startUnix(brokerConfig(fake.Addr()), fmt.Sprintf("%s-%d", pl.H, pl.K))
 	if err != nil {
+		fake.Close()
+		if strings.HasPrefix(err.Error(), "listen unix") {
+			res.Trouble = err.Error()
+			return
+		}
 		// StartupTotal
-		msg := err.Error()
-		div("startup_failed", "fe:startup_failed", "", "", msg)
+		div("startup_failed", "fe:startup_failed", "", "", err.Error())
 		return
 	}
+	conns := map[string]*cli{}
+	var probe *cli
 	defer func() {
-		if err := b.Stop(5 * time.Second); err != nil && res.Trouble == "" {
+		for _, a := range conns {
+			a.c.Close()
+		}
+		if probe != nil {
+			probe.c.Close()
+		}
+		// the broker is stopped BEFORE its store goes away: a broker whose store is unreachable treats every failing
+		// session lookup of a disconnecting client as "no session" and issues DEL commands - with the store's port
+		// already re-used by the store of another restart they would hit that one
+		if err := ub.stop(5 * time.Second); err != nil && res.Trouble == "" {
 			res.Trouble = "stop of the restarted broker: " + err.Error()
 		}
+		fake.Close()
 	}()
+	b := struct {
+		Srv  server.Server
+		Addr string
+	}{ub.srv, ub.path}
 
 	must := map[string]bool{}
 	var order []string
@@ -846,6 +931,7 @@ func restart(rec *Recorded, pl *Plan) (res *Result) {
 		sort.Strings(fl)
 		for _, f := range fl {
 			res.Checked++
+			res.NSubs++
 			al, listed := allowed[c][f]
 			if !listed {
 				al = []Opts{noSub}
@@ -880,12 +966,6 @@ func restart(rec *Recorded, pl *Plan) (res *Result) {
 	}
 
 	// ---- reconnect every persistent client with Clean Start 0, collect what it is sent
-	conns := map[string]*cli{}
-	defer func() {
-		for _, a := range conns {
-			a.c.Close()
-		}
-	}()
 	msgs := map[string]map[string]string{}
 	for _, m := range pl.Req.Msgs {
 		if msgs[m.C] == nil {
@@ -947,6 +1027,11 @@ func restart(rec *Recorded, pl *Plan) (res *Result) {
 		for _, m := range ms {
 			res.Checked++
 			_, got := delivered[m]
+			if msgs[c][m] == "must" {
+				res.NMust++
+			} else if msgs[c][m] == "done" {
+				res.NDone++
+			}
 			switch st := msgs[c][m]; {
 			case st == "must" && !got:
 				div("msg_lost", "fe:acked_message_not_redelivered", c, m, "the publisher had read its acknowledgement, the subscriber had not acknowledged; not sent again after restart + CONNECT with Clean Start 0")
@@ -973,12 +1058,13 @@ func restart(rec *Recorded, pl *Plan) (res *Result) {
 		}
 	}
 	if len(ids) > 0 {
-		probe, p, err := dialConnect(b.Addr, "~probe", ClientDef{Ver: 4, Exp: -1}, true)
+		var p *mw.Packet
+		probe, p, err = dialConnect(b.Addr, "~probe", ClientDef{Ver: 4, Exp: -1}, true)
 		if err != nil {
+			probe = nil
 			res.Trouble = "probe dial: " + err.Error()
 			return
 		}
-		defer probe.c.Close()
 		probe.c.Send(p)
 		if _, err := probe.expect(tAck, func(p *mw.Packet) bool { return p.Type == mw.CONNACK }); err != nil {
 			res.Trouble = "probe CONNACK: " + err.Error()
@@ -992,6 +1078,7 @@ func restart(rec *Recorded, pl *Plan) (res *Result) {
 		for _, x := range ids {
 			a := conns[x.c]
 			res.Checked++
+			res.NIds++
 			topic := fmt.Sprintf("~pr/%s/%d", x.c, x.pid)
 			pk := mw.Publish(topic, 2, false, uint16(x.pid), []byte("~dup"))
 			pk.Dup = true
@@ -1128,6 +1215,12 @@ func main() {
 			"wall_ms": int(time.Since(t0) / time.Millisecond)})
 		fmt.Println(string(s))
 	case "restart":
+		sd, err := os.MkdirTemp("", "c09sock")
+		if err != nil {
+			die(err)
+		}
+		sockDir = sd
+		defer os.RemoveAll(sd)
 		recs := map[string]*Recorded{}
 		if err := readLines(*journals, func(b []byte) error {
 			r := &Recorded{}
